@@ -192,7 +192,7 @@ func TestVerif_C01(t *testing.T) {
 		dBlocks := vx.Pick(c, 7, 9)
 		// sizes above the 4096 default need Limit(16384) first: a small alphabet of their own
 		largeOps := c01Ops("B(k=v)", "B(big=z*100)", "Peer(70)", "Peer(4096)", "Peer(8192)", "Limit(4096)", "Limit(16384)")
-		dLarge := vx.Pick(c, 5, 8)
+		dLarge := vx.Pick(c, 6, 8)
 		ops := vx.Pick(c, quickOps, thoroughOps)
 		seeds := [][]c01Op{
 			c01Ops("F(k=v)", "End"),
